@@ -351,6 +351,14 @@ theorem T_C11_scaling_common_origin (r : Rat) (o1 o2 x : V3) :
     · simp [scaleAbout]
     · rfl
 
+/-- a scaling about any origin maps the sphere with centre `c` through `x` onto the sphere with the scaled
+    centre through the scaled point, whose squared radius is `r²` times the old one: the sphere a hemisphere
+    declares has to be re-derived from its points after `scale()`, a radius stored before is wrong unless `r² = 1` -/
+theorem T_C11_sphere_scaled (r : Rat) (o c x : V3) :
+    V3.norm2 (scaleAbout r o x - scaleAbout r o c) = r * r * V3.norm2 (x - c) := by
+  simp only [scaleAbout, V3.norm2, V3.dot, V3.sub_x, V3.sub_y, V3.sub_z]
+  ring
+
 /-- non-vacuity: scaling a shared point by 4/5 about two different centres tears it apart -/
 example : scaleAbout (4 / 5) ⟨0, 0, 0⟩ ⟨1, 0, 0⟩ ≠ scaleAbout (4 / 5) ⟨1 / 2, 0, 0⟩ ⟨1, 0, 0⟩ := by
   intro h
